@@ -273,7 +273,7 @@ int p_codec(void)
 			rng_t r = rng_make(g_run.seed, 5000 + ci, lv * 4096 + sp);
 			block_t b;
 			/* the block-building encoder session is itself a monitored case (C07/C08: encoder histories) */
-			int payload = (ci + lv) % 3 == 0 ? PAY_IDENTITY : PAY_RANDOM;
+			int payload = (ci + lv) % 3 == 0 ? PAY_IDENTITY : (ci + lv) % 3 == 1 ? PAY_RANDOM : PAY_SPARSE;
 			uint64_t nullmask = (g_pf.mon & (MON_C07 | MON_C08)) ? rng_u64(&r) & rng_u64(&r) : 0;
 			if (!rep_case("encode codec=%s k=%u r=%u L=%u N1=%u seed=%u payload=%d nullslots=0x%llx", codec_name(&c), c.k, c.r, c.L, c.N1, c.seed, payload, (unsigned long long)nullmask)) {
 				/* replay / resume filter: the block is still needed for the cases that follow */
